@@ -4,8 +4,8 @@ M2 "CmdMgr": the UOD half of `openpectus/engine/command_manager.py` (`CommandMan
 `_commit_commands_done`, `cancel_instruction`, `force_instruction`, `cancel_commands(finalize=True)`),
 `engine/commands.py` (`EngineCommand` flags), `lang/exec/uod.py` (`create_command`, `get_command`,
 `dispose_command`, `UodCommand.initialize/execute/cancel/finalize`), the marks of `lang/exec/tracking.py`
-(`mark_uod_command_started`, `mark_completed`, `mark_failed`, `mark_cancelled`, `mark_forced`, duplicate-state
-suppression of `RuntimeRecord._add_state`, `silently_skip` while tracking is disabled), the node flags of
+(`mark_uod_command_started`, `mark_completed`, `mark_failed`, `mark_cancelled`, `mark_forced`, suppression of
+duplicate states and of states after a conclusive one in `RuntimeRecord._add_state`, `silently_skip` while tracking is disabled), the node flags of
 `SupportCancelForce` for `UodCommandNode`, the run-log item flags of `RuntimeInfo._get_record_runlog_items`, and
 of `internal_commands_impl.py` what C10/C12 need: Start, Stop, Restart as resident generator commands
 (`cancel_all_commands`, `tracking.disable`, `emit_on_stop` = simulations cleared + run log snapshot, run id
@@ -153,9 +153,13 @@ def Track.free (t : Track) : Bool := !t.nCancelled && !t.nForced
 
 def Track.hasMark (t : Track) (m : Mark) : Bool := t.marks.any (fun p => p.1 == m)
 
-/-- `_add_state`: a state that is already present for the instance is not added again. -/
+/-- The invocation has a conclusive state (Completed, Failed, Cancelled). -/
+def Track.concluded (t : Track) : Bool := t.marks.any (fun p => p.1.conclusive)
+
+/-- `RuntimeRecord._add_state`: a state that is already present for the instance is not added again, and a
+concluded invocation takes no further states. -/
 def Track.addMark (t : Track) (m : Mark) : Track :=
-  if t.hasMark m then t else { t with marks := t.marks ++ [(m, t.free)] }
+  if t.hasMark m || t.concluded then t else { t with marks := t.marks ++ [(m, t.free)] }
 
 def getTrack (tr : List Track) (i : Nat) : Option Track := tr.find? (fun t => t.id == i)
 
@@ -203,7 +207,8 @@ def markUodStarted (s : State) (owner ser : Nat) : TR :=
   | none => none
   | some _ => some { s with track := modTrack s.track owner (fun t =>
       let t' := t.addMark .started
-      if t'.hasMark .cmdSet then t' else { t'.addMark .cmdSet with cmd := some ser }) }
+      -- the command is stored with the `UodCommandSet` state, if that state is added
+      if t'.hasMark .cmdSet || t'.concluded then t' else { t'.addMark .cmdSet with cmd := some ser }) }
 
 /-- Run-log item flags `(cancellable, forcible)` of a record as `_get_record_runlog_items` computes them;
 `none` = the function raises ("Error generating runlog": a state follows a conclusive one). -/
